@@ -29,11 +29,13 @@ type Ctx struct {
 	aliasMemo *aliasGraph
 	errMemo   *errFlow
 	probes    []probe
+	verif     string
+	Extras    map[string]any
 }
 
 func NewCtx(p *load.Program, prop, tier string) *Ctx {
 	c := &Ctx{P: p, S: oblig.NewSet(prop), Tier: tier,
-		paths: map[*ssa.Function][]*pathx.Path{}, stats: map[*ssa.Function]pathx.Stats{}}
+		paths: map[*ssa.Function][]*pathx.Path{}, stats: map[*ssa.Function]pathx.Stats{}, Extras: map[string]any{}}
 	c.funcs = p.SourceFuncs(p.Root)
 	return c
 }
